@@ -470,6 +470,12 @@ def classify(body, facts, bb, t, st):
                 problems.append('%s into %s' % (nm, tt[:80]))
         elif nm in FOLD_OK:
             notes.append('%s (order-insensitive fold)' % nm)
+        elif nm in ('fold', 'for_each') and closure_consumer_insensitive(body, facts, ct, nm) is True:
+            notes.append('%s with an order-insensitive closure (own-element updates, commutative accumulation)' % nm)
+        elif nm in ('fold', 'for_each') and isinstance(closure_consumer_insensitive(body, facts, ct, nm), list):
+            # the closure is the loop body: report ITS effects, so that an exception naming an effect applies to either spelling
+            for e in closure_consumer_insensitive(body, facts, ct, nm):
+                problems.append(e)
         elif nm in FIRST:
             problems.append('%s depends on which element comes first' % nm)
         elif nm in ('drop', 'drop_in_place', 'size_hint'):
@@ -479,6 +485,41 @@ def classify(body, facts, bb, t, st):
     if problems:
         return 'sensitive', '; '.join(problems[:4]), problems
     return 'auto', '; '.join(sorted(set(notes))) or 'no ordered consumer', []
+
+
+def closure_consumer_insensitive(body, facts, ct, nm):
+    """`iter.for_each(f)` / `iter.fold(init, f)` does not depend on the visiting order: f's body has no order-sensitive effect (the same
+    test as for a loop body) and, for fold, every result is the accumulator itself or `acc OP g(element)` with OP commutative and
+    associative (| & ^ + on integers/bools)"""
+    ai = 2 if nm == 'fold' else 1
+    if len(ct['args']) <= ai:
+        return False
+    cl = op_local(ct['args'][ai])
+    cb = None
+    for _bb, kind, rv in body.defs().get(cl, ()):
+        if kind == 'stmt' and 'agg' in rv and isinstance(rv['agg'], dict) and 'closure' in rv['agg']:
+            cb = facts.bodies.get(rv['agg']['closure'])
+    if cb is None:
+        return False
+    eff = loop_effects(cb, facts, set(cb.reachable()), None)
+    if eff:
+        return ['loop body: %s %s (line %s)' % (e[0], e[2], cb.term(e[1]).get('line')) for e in eff]
+    if nm == 'for_each':
+        return True
+    ps = Walker(cb, facts, max_paths=32).run()
+    if not ps:
+        return False
+    acc = ('param', 2)
+    for p in ps:
+        if p.end[0] != 'return':
+            return False
+        r = p.end[1]
+        if r == acc:
+            continue
+        if r[0] == 'bin' and r[1] in ('BitOr', 'BitAnd', 'BitXor', 'Add') and ((r[2] == acc and not term_has(r[3], lambda x: x == acc)) or (r[3] == acc and not term_has(r[2], lambda x: x == acc))):
+            continue
+        return False
+    return True
 
 
 def sorted_before_use(body, vec_local, def_bb):
